@@ -145,7 +145,8 @@ def rule_fresh(ctx):
     rq = [n_ for n_ in walk_no_nested(d) if isinstance(n_, ast.Assign) and isinstance(n_.value, ast.Call) and (dotted(n_.value.func) or "").endswith("Queue")]
     ctx.ob("C17.FRESH", rq[0] if rq else d, "the reply queue is created per session", len(rq) == 1, "the reply queue is not created per session", construct="fresh:queue")
     resp = kv.get("response")
-    ok = isinstance(resp, ast.Lambda) and rq and isinstance(rq[0].targets[0], ast.Name) and any(isinstance(x, ast.Name) and x.id == rq[0].targets[0].id for x in ast.walk(resp.body))
+    _, r_body, _ = response_primitive(p)
+    ok = r_body is not None and rq and isinstance(rq[0].targets[0], ast.Name) and any(isinstance(x, ast.Name) and x.id == rq[0].targets[0].id for x in ast.walk(r_body))
     ctx.ob("C17.FRESH", resp if resp is not None else ctor, "the reply primitive is bound to this session's own queue", bool(ok), "the reply primitive is not bound to the session's own queue", construct="fresh:response")
     pio = [n_ for n_ in walk_no_nested(d) if isinstance(n_, ast.Assign) and last_attr(n_.targets[0]) == "path_io"]
     ok = len(pio) == 1 and isinstance(pio[0].value, ast.Call) and src(pio[0].value.func) == "self.path_io_factory" and any(k.arg == "connection" for k in pio[0].value.keywords)
